@@ -6,6 +6,7 @@
 import MoThreads.Driver.M1
 import MoThreads.Driver.M3
 import MoThreads.Driver.M4
+import MoThreads.Driver.M6
 open MoThreads.Driver
 
 inductive Model
@@ -13,6 +14,7 @@ inductive Model
   | m1 (m : M1.Sim)
   | m3 (m : M3.Sim)
   | m4 (m : M4.Sim)
+  | m6 (m : M6.Sim)
 
 structure DState where
   runId : String := ""
@@ -35,6 +37,7 @@ def finish (d : DState) : IO Unit := do
     | .m1 m => IO.println s!"ok {d.runId} steps={m.steps}"
     | .m3 m => IO.println s!"ok {d.runId} steps={m.steps}"
     | .m4 m => IO.println s!"ok {d.runId} steps={m.steps}"
+    | .m6 m => IO.println s!"ok {d.runId} steps={m.steps}"
     | .none => IO.println s!"ok {d.runId} steps=0"
 
 def startRun (ws : List String) : Except String Model :=
@@ -44,6 +47,7 @@ def startRun (ws : List String) : Except String Model :=
     let rs := (kv rest "raises").splitOn "," |>.filterMap String.toNat?
     .ok (.m1 (M1.start never rs))
   | _ :: _ :: "m3" :: _ => .ok (.m3 M3.start)
+  | _ :: _ :: "m6" :: rest => .ok (.m6 (M6.start ((kv rest "I").toNat?.getD 128)))
   | _ :: _ :: "m4" :: rest =>
     let mx := (kv rest "max").toNat?.getD 1024
     let pre := (kv rest "prefill").splitOn "," |>.filterMap String.toNat?
@@ -84,6 +88,12 @@ partial def loop (h : IO.FS.Stream) (d : DState) : IO Unit := do
       | .m4 m =>
         match M4.feed m ws with
         | .ok m' => loop h { d with model := .m4 m' }
+        | .error e =>
+          IO.println s!"FAIL {d.runId} line={d.lineNo} {e}"
+          loop h { d with failed := true }
+      | .m6 m =>
+        match M6.feed m ws with
+        | .ok m' => loop h { d with model := .m6 m' }
         | .error e =>
           IO.println s!"FAIL {d.runId} line={d.lineNo} {e}"
           loop h { d with failed := true }
